@@ -327,6 +327,18 @@ class Interp:
                                kwargs={a: self.ev(v) for a, v in kw.items()})
                 if f.attr in ("_write", "bwrite", "write"):
                     self.err(call, "class-level write call not modelled")
+        # helper of the same class that receives the stream: self._helper(stream, ...) / Cls._helper(stream, ...) - inlined (bound 2)
+        if isinstance(f.value, ast.Name) and self.func.cls is not None and f.attr not in ("_write", "_build", "bwrite", "bread") and self.is_stream(first):
+            owner = None
+            if f.value.id == (self.func.self_name or "self"):
+                owner = self.func.cls
+            else:
+                k = self.prog.resolve_class(self.m, f.value.id) if f.value.id not in self.env else None
+                if k is not None and k.name == self.func.cls.name:
+                    owner = k
+            h = self.prog.lookup_method(owner, f.attr) if owner is not None else None
+            if h is not None and getattr(self, "_inline_depth", 0) < 2:
+                return ("inline", h, call)
         # instance sub-codec:  x._write(stream, ...) / x.bwrite(stream)
         if f.attr in ("_write", "bwrite") and self.is_stream(first):
             recv = self.ev(f.value)
@@ -363,6 +375,9 @@ class Interp:
         class X(ast.NodeTransformer):
             def visit_Call(self, node):
                 t = interp.classify(node)
+                if isinstance(t, tuple) and t[0] == "inline":
+                    rv = interp.inline(t[1], t[2], out)
+                    return rv if rv is not None else C(None)
                 if t is not None:
                     if interp.side == "r" or isinstance(t, (Raw,)):
                         ph = interp.fresh()
@@ -419,6 +434,32 @@ class Interp:
             return Rep(node=node, kind="rows", over=it, vars=vars_, body=body)
         return Rep(node=node, kind="coll", over=it, vars=vars_, body=body)
 
+    def inline(self, h: FuncInfo, call: ast.Call, out):
+        """Interpret helper h (a method of the same class) in place of the call; returns the helper's returned expression."""
+        params = h.params
+        args = list(call.args)
+        sub = Interp(self.prog, h, params[0] if params else self.stream, self.side)
+        sub._inline_depth = getattr(self, "_inline_depth", 0) + 1
+        sub.ph_class = self.ph_class
+        env = {}
+        # the stream parameter is renamed to the caller's stream expression by making the sub-interpreter use its own name
+        for p_, a in zip(params[1:], args[1:]):
+            env[p_] = self.ev(a)
+        for k in call.keywords:
+            if k.arg:
+                env[k.arg] = self.ev(k.value)
+        for p_, d in h.defaults().items():
+            env.setdefault(p_, d)
+        sub.env = env
+        terms = sub.run()
+        ret = None
+        for t in terms:
+            if isinstance(t, Ret):
+                ret = t.value
+            else:
+                out.append(t)
+        return ret
+
     # -- statements --------------------------------------------------------------------------------
     def run(self, body=None):
         body = self.func.node.body if body is None else body
@@ -443,6 +484,9 @@ class Interp:
                 self.err(st, "conditional expression statement over the stream")
             if isinstance(v, ast.Call):
                 t = self.classify(v)
+                if isinstance(t, tuple) and t[0] == "inline":
+                    self.inline(t[1], t[2], out)
+                    return
                 if t is not None:
                     if self.side == "r" or t.__class__ is Raw:
                         t.ph = self.fresh()
